@@ -451,6 +451,10 @@ class BuiltinModelLoaderGen(ModelLoaderGen):
             with state.builder(f"except {bad_type_error}:"):
                 self._gen_raise_bad_type_error(state, bad_type_load_error, namer=state.parent)
             state.type_checked_type_paths.add(state.parent_path)
+        elif not isinstance(last_path_el, str):
+            # mapping with integer keys can pass the first lookup and fail at one of the next
+            with state.builder("except KeyError:"):
+                self._gen_raise_bad_type_error(state, bad_type_load_error, namer=state.parent)
 
         self._gen_unexpected_exc_catching(state)
 
